@@ -1,10 +1,128 @@
 import SkaModel.Core.Proto
+import SkaModel.Core.IndexWrapper
 
-/-! Driver commands for the `IndexWrapper` model family. One self-contained case per line. -/
+/-! Driver commands for the `IndexWrapper` model family (C19). One self-contained case per line:
+the constructor configuration followed by a complete call sequence; the output holds the model's
+state after every call.
+
+`iw <n> <native> <unique> <speed> y0(n ints, <0 = missing) <sw0:optlist> <prefit: 0 | 1 D> <initSetBase>
+    <classes:list int> kernel(n*n optFloat) <nops> op…`
+ops: `F idx y sw sb` | `P idx y sw ub sb` | `C idxfit idxpred fp pp` | `Q kind idx`
+(`idx` = `<k> i…`, optional lists = `N` | `<k> x…`, `D` = `<k> i… <k> y… sw`). -/
 
 namespace Ska.Drv.IndexWrapper
-open Ska Ska.Proto
+open Ska Ska.Proto Ska.IW
 
-def handlers : List (String × P String) := []
+def optList {γ : Type} (p : P γ) : P (Option (List γ)) := do
+  let t ← tok
+  if t = "N" then pure none
+  else match t.toNat? with
+    | some n => do let xs ← many p n; pure (some xs)
+    | none => failure
+
+def dataP : P (Data Int Float) := do
+  let idx ← listOf int
+  let y ← listOf int
+  let sw ← optList float
+  pure ⟨idx, y, sw⟩
+
+inductive Cmd where
+  | op (o : Op Int Float)
+  | pre (a b : List Int) (fp pp : Nat)
+  | query (kind : Kind) (q : List Int)
+
+def cmdP : P Cmd := do
+  match (← tok) with
+  | "F" => do
+    let idx ← listOf int; let y ← optList int; let sw ← optList float; let sb ← bool
+    pure (.op (.fit idx y sw sb))
+  | "P" => do
+    let idx ← listOf int; let y ← optList int; let sw ← optList float; let ub ← bool; let sb ← bool
+    pure (.op (.pfit idx y sw ub sb))
+  | "C" => do
+    let a ← listOf int; let b ← listOf int; let fp ← nat; let pp ← nat
+    pure (.pre a b fp pp)
+  | "Q" => do
+    let k ← nat; let q ← listOf int
+    pure (.query (if k = 0 then .label else if k = 1 then .proba else .freq) q)
+  | _ => failure
+
+def showErr : Err → String
+  | .value => "err value"
+  | .index => "err index"
+  | .notFitted => "err notfitted"
+  | .attr => "err attr"
+  | .mixed => "err mixed"
+  | .nan => "err nan"
+  | .param => "err param"
+
+def showOptW : Option (List Float) → String
+  | none => "N"
+  | some w => s!"{w.length} {showFloats w}"
+
+def showData (d : Data Int Float) : String :=
+  s!"d {d.idx.length} {showInts d.idx} {d.y.length} {showInts d.y} {showOptW d.sw}"
+
+def showOD : Option (Data Int Float) → String
+  | none => "none"
+  | some d => showData d
+
+def showOH : Option (Hist Int Float) → String
+  | none => "none"
+  | some h => s!"h {h.rest.length + 1} " ++ " ".intercalate ((h.first :: h.rest).map showData)
+
+def showSt (s : St (Hist Int Float) Int Float) : String :=
+  s!"clf {showOH s.clf} cur {showOD s.cur} bclf {showOH s.bclf} base {showOD s.base}"
+
+def showMat (rows : List (List Float)) : String :=
+  s!"{rows.length} {(rows.headD []).length} " ++ " ".intercalate (rows.map showFloats)
+
+def showKind : Kind → String
+  | .label => "0" | .proba => "1" | .freq => "2"
+
+def cmdIW : P String := do
+  let n ← nat
+  let native ← bool; let unique ← bool; let speed ← bool
+  let y0 ← many int n
+  let sw0 ← optList float
+  let pf ← bool
+  let prefit ← (if pf then do let d ← dataP; pure (some (Hist.fit d)) else pure none)
+  let isb ← bool
+  let classes ← listOf int
+  let kern ← many optFloat (n*n)
+  let nops ← nat
+  let cmds ← many cmdP nops
+  let cfg : Cfg Int Float := ⟨n, y0, sw0, native, unique, speed⟩
+  let k : Nat → Nat → Float := fun i j => match kern[i*n + j]? with | some (some v) => v | _ => Float.ofBits 0x7FF8000000000000
+  let isMissing : Int → Bool := fun l => decide (l < 0)
+  match init cfg prefit isb with
+  | .error e => pure ("init " ++ showErr e)
+  | .ok s0 =>
+    let rec go (s : St (Hist Int Float) Int Float) (pre : Tab Float) (cs : List Cmd) (acc : List String) : List String :=
+      match cs with
+      | [] => acc.reverse
+      | .op o :: rest =>
+        let r := step cfg Hist.fit Hist.pfit s o
+        let st := match r.2 with | none => "ok" | some e => showErr e
+        go r.1 pre rest ((st ++ " " ++ showSt r.1) :: acc)
+      | .pre a b fp pp :: rest =>
+        let r := precompute cfg isMissing k pre a b fp pp
+        let st := match r.2 with | none => "ok" | some e => showErr e
+        let tab := (List.range (n*n)).map (fun t => r.1 (t / n) (t % n))
+        go s r.1 rest ((st ++ " tab " ++ showOptFloats tab) :: acc)
+      | .query kind q :: rest =>
+        let out := match predictPlan cfg pf s pre kind q with
+          | .error e => showErr e
+          | .ok (.table kd rows) =>
+            let fr := match s.cur with
+              | some d => freqRows (fun (a b : Int) => a == b) rows d.y d.sw classes
+              | none => []
+            s!"ok table {showKind kd} {showMat rows} freq {showMat fr}"
+          | .ok (.direct kd qs) => s!"ok direct {showKind kd} {showNats qs}"
+          | .ok (.orig kd qs) => s!"ok orig {showKind kd} {showNats qs}"
+        go s pre rest (out :: acc)
+    pure (" || ".intercalate (("init ok " ++ showSt s0) :: go s0 Tab.empty cmds []))
+
+def handlers : List (String × P String) := [("iw", cmdIW)]
 
 end Ska.Drv.IndexWrapper
